@@ -1,4 +1,5 @@
 import Pearl.Model.Script
+import Pearl.Oracle
 open Pearl
 
 partial def loop (h : IO.FS.Stream) (out : IO.FS.Stream) (s : Store) : IO Unit := do
@@ -12,8 +13,22 @@ partial def loop (h : IO.FS.Stream) (out : IO.FS.Stream) (s : Store) : IO Unit :
     out.putStrLn o
     loop h out s'
 
-def main (_args : List String) : IO Unit := do
+partial def oracleLoop (h : IO.FS.Stream) (out : IO.FS.Stream) (s : Oracle.St) : IO Unit := do
+  let line ← h.getLine
+  if line.isEmpty then return ()
+  let t := line.trimAscii.toString
+  if t.isEmpty then
+    oracleLoop h out s
+  else
+    let (s', o) := Oracle.step s t
+    out.putStrLn o
+    oracleLoop h out s'
+
+def main (args : List String) : IO Unit := do
   let stdin ← IO.getStdin
   let stdout ← IO.getStdout
-  loop stdin stdout ({} : Store)
+  if args.contains "--oracle" then
+    oracleLoop stdin stdout {}
+  else
+    loop stdin stdout ({} : Store)
   stdout.flush
